@@ -31,23 +31,31 @@ def make_service(name, uid):
 SERVICES = {k: make_service(k, ABS[k]) for k in 'ABC'}
 
 
-def get_ae(served, supported):
-    key = (served, supported)
+def _scu(asce, ctx, *a):
+    return None
+
+
+def get_ae(served, supported, scu_rest=False):
+    key = (served, supported, scu_rest)
     if key not in _AES:
         ae = fd.make_ae('SRV', [TS[i] for i in supported])
         for k in served:
             ae.add_scp(SERVICES[k])
+        if scu_rest:
+            # the entity is also a service USER of every class it does not serve: still not an SCP for them
+            ae.add_scu(_scu, [ABS[k] for k in 'ABCZ' if k not in served])
         _AES[key] = ae
     return _AES[key]
 
 
 def run_request(served, supported, contexts, probe, max_len=16384, called='SRV', calling='CLI',
-                app='1.2.840.10008.3.1.1.1', extra_subs=()):
+                app='1.2.840.10008.3.1.1.1', extra_subs=(), scu_rest=False):
     """contexts: [(id, abstract key, [ts indices])]; probe: context id that is not accepted (or None) to
     which one message is sent after all accepted contexts were exercised."""
     case = {'served': served, 'supported': list(supported), 'contexts': contexts, 'probe': probe,
-            'max_len': max_len, 'called': called, 'calling': calling, 'app': app, 'extra_subs': list(extra_subs)}
-    ae = get_ae(served, tuple(supported))
+            'max_len': max_len, 'called': called, 'calling': calling, 'app': app, 'extra_subs': list(extra_subs),
+            'scu_rest': scu_rest}
+    ae = get_ae(served, tuple(supported), scu_rest)
     sup = [TS[i] for i in supported]
     spec = fd.rq_spec([(cid, ABS[a], [TS[i] for i in tl]) for cid, a, tl in contexts], max_len, called, calling,
                       app, extra_subs)
@@ -168,7 +176,7 @@ def run_enum(ctx, job):
                 exp0 = [(cid, a, a in served and any(TS[i] in sup for i in tl), None) for cid, a, tl in contexts]
                 probe = pick_probe(contexts, exp0, n)
                 try:
-                    expected = run_request(served, list(supported), contexts, probe)
+                    expected = run_request(served, list(supported), contexts, probe, scu_rest=n % 2 == 1)
                     ctx.case(('enum', served, supported, contexts), nontrivial(expected, contexts, supported),
                              labels=['enum', 'n=%d' % len(contexts)],
                              sample={'served': served, 'supported_ts': list(supported), 'contexts': contexts})
@@ -189,16 +197,17 @@ def random_case(draw):
                           max_size=3))
     return (served, supported, contexts, draw(st.integers(0, 20)), draw(g.u32),
             draw(g.ae_title).strip() or 'X', draw(g.ae_title).strip() or 'Y',
-            draw(st.sampled_from(['1.2.840.10008.3.1.1.1', '1.2.3', '1.2.840.10008.3.1.1.1.9'])), extra)
+            draw(st.sampled_from(['1.2.840.10008.3.1.1.1', '1.2.3', '1.2.840.10008.3.1.1.1.9'])), extra,
+            draw(st.booleans()))
 
 
 def run_random(ctx, n):
     def fn(value):
-        served, supported, contexts, salt, max_len, called, calling, app, extra = value
+        served, supported, contexts, salt, max_len, called, calling, app, extra, scu_rest = value
         sup = [TS[i] for i in supported]
         exp0 = [(cid, a, a in served and any(TS[i] in sup for i in tl), None) for cid, a, tl in contexts]
         probe = pick_probe(contexts, exp0, salt)
-        expected = run_request(served, supported, contexts, probe, max_len, called, calling, app, extra)
+        expected = run_request(served, supported, contexts, probe, max_len, called, calling, app, extra, scu_rest)
         ctx.case(('rnd', value[:3], called, calling), nontrivial(expected, contexts, supported),
                  labels=['random', 'n=%d' % len(contexts)],
                  sample={'served': served, 'supported_ts': supported, 'contexts': contexts, 'called': called})
@@ -221,7 +230,7 @@ def cleanup():
 
 def run(ctx):
     warnings.simplefilter('ignore')
-    ctx.rule = ('exhaustive: 8 served-class subsets x 16 supported-syntax subsets x all requests with <=1 (quick) / '
+    ctx.rule = ('exhaustive: 8 served-class subsets (the entity optionally being a service USER of all other classes) x 16 supported-syntax subsets x all requests with <=1 (quick) / '
                 '<=2 (thorough) contexts over {3 served candidates, 1 never-served} x all 40 ordered lists of 1-3 '
                 'syntaxes from 4; Hypothesis: 0-8 contexts with arbitrary odd ids, generated AE titles, application '
                 'context, maximum length and extra user sub-items; each request is the decoded form of '
@@ -234,7 +243,7 @@ def run(ctx):
     try:
         parallel(ctx, run_enum, [{'part': i, 'of': 16, 'two': ctx.thorough} for i in range(16)])
         if ctx.thorough:
-            parallel(ctx, shard_random, [{'n': 1500} for _ in range(16)])
+            parallel(ctx, shard_random, [{'n': 4000} for _ in range(16)])
         else:
             run_random(ctx, 400)
     finally:
@@ -245,6 +254,6 @@ def replay(case):
     warnings.simplefilter('ignore')
     try:
         run_request(case['served'], case['supported'], [tuple(c) for c in case['contexts']], case['probe'],
-                    case['max_len'], case['called'], case['calling'], case['app'], case.get('extra_subs', ()))
+                    case['max_len'], case['called'], case['calling'], case['app'], case.get('extra_subs', ()), case.get('scu_rest', False))
     finally:
         cleanup()
